@@ -11,6 +11,7 @@ from .. import common, sites
 from ..common import f2h
 from ..gen import xmap as G
 from ..main import lean_phase
+from . import xmap_views
 
 FILL_I = -7
 
@@ -524,10 +525,13 @@ SITES = {
     "set_semantics": sites.Site("set_semantics", "prop", setsem_check),
     "geometry": sites.Site("geometry", "prop", geom_check),
     "map_data_item": sites.Site("map_data_item", "prop", item_check),
+    "live_views": sites.Site("live_views", "prop", xmap_views.views_read_check),
 }
 
 
 # narrow classifiers of failing cases for known_findings.json
+
+
 def pred_grid_1x1(case):
     """original grid of one point, and the failure is the crash of row / col / get_map_data"""
     if not (case.get("ny") == 1 and case.get("nx") == 1):
@@ -588,6 +592,14 @@ def generate(ctx):
         yield "map_data_item", c
 
 
+def generate_views(ctx):
+    rng = ctx.rng
+    for i in range(60 if ctx.tier == "quick" else 600):
+        c = xmap_views.gen_views_case(rng, assign=False)
+        ctx.count("live_views", ("lv", i, tuple(c["shape"]), tuple(c["order"])))
+        yield "live_views", c
+
+
 def run(ctx, status):
     driver_ok = lean_phase(ctx, status, ["OrixProofs.Properties.C11"])
     if ctx.replay:
@@ -595,7 +607,7 @@ def run(ctx, status):
         if site in SITES:
             sites.run_cases(ctx, SITES, [(site, case)], driver_ok)
     else:
-        sites.run_cases(ctx, SITES, generate(ctx), driver_ok)
+        sites.run_cases(ctx, SITES, list(generate(ctx)) + list(generate_views(ctx)), driver_ok)
     return common.finish(
         ctx, "proof", PREDICATES,
         rule="seeded stratified generation of grids (2-D, (1,n), (n,1), 1-D, (1,1), thin), origins/steps (unit, integer "
